@@ -546,3 +546,22 @@ Definition wf_b (inp : input) : bool :=
 Definition rounding_ok (inp : input) (xs : list Q) : Prop :=
   length xs = length (i_actors inp) /\
   forall r, (r < length xs)%nat -> nth r xs 0 - unrounded_x inp r <= 1 /\ unrounded_x inp r - nth r xs 0 <= 1.
+
+(* ---------- decidable forms used by Check.v ---------- *)
+(* rounding: the implementation's x is an integer within 1/2 (+tol) of the model's argument *)
+Definition is_int (x : Q) : bool := Qeq_bool (iz (Qfloor x)) x.
+Definition rounding_b (inp : input) (xs : list Q) : bool :=
+  Nat.eqb (length xs) (length (i_actors inp)) &&
+  forallb (fun r => let x := nth r xs 0 in let v := unrounded_x inp r in
+                    is_int x && Qle_bool (x - v) ((1#2) + tol) && Qle_bool (v - x) ((1#2) + tol))
+          (seq 0 (length xs)).
+
+(* declaration order on a geometry: all pairs (Order.pairs_ok) with these relations *)
+Definition left_of (a b : box) : bool := qlt_b (b_x a) (b_x b).
+Definition above (r1 r2 : list pt) : bool := qlt_b (max_y_of' r1) (min_y_of r2).
+
+(* text positions of the actors among the sorted top-level objects *)
+Definition actor_ids (objs_in : list (Z * nat * bool)) (objs_out : list nat) : list nat :=
+  filter (fun i => existsb (fun o => let '(_, j, isa) := o in Nat.eqb i j && isa) objs_in) objs_out.
+Definition obj_keys (objs_in : list (Z * nat * bool)) : list (Z * nat) :=
+  map (fun o => (fst (fst o), snd (fst o))) objs_in.
